@@ -1,4 +1,5 @@
 import sys
+# NOTE: /verif/kani/non_blocking_atomic_stack.rs has since been extended BY HAND (pop_result_is_fixed_inside_the_critical_section); re-running this generator would drop that harness
 def gen(kind):
     mod = f"ogre_std::ogre_stacks::{kind}"
     lockfree = "!s.flag.load(std::sync::atomic::Ordering::SeqCst)" if kind=="non_blocking_atomic_stack" else "!s.concurrency_guard.is_locked()"
